@@ -75,9 +75,25 @@ _sub_re.add("\\(\\?P<.*>", _invalid_regex("(?:"))
 _sub_re.add("\\(\\?P=[^)]*\\)", _invalid_regex(""))
 _sub_re.add(r"\\+$", _trailing_backslashes_regex)
 
+_leading_global_flags = re.compile(r"\(\?([aiLmsux]+)\)")
+
+
+def _sub_re_scoped(pattern):
+    """Translate a RE: pattern for embedding in a larger expression.
+
+    Python (>= 3.11) rejects global inline flags such as (?i) anywhere but
+    at the very start of an expression, so leading global flags are turned
+    into a group scoped to this pattern: (?i)foo becomes (?i:foo).
+    """
+    translated = _sub_re(pattern)
+    m = _leading_global_flags.match(translated)
+    if m:
+        return f"(?{m.group(1)}:{translated[m.end():]})"
+    return translated
+
 
 _sub_fullpath = Replacer()
-_sub_fullpath.add(r"^RE:.*", _sub_re)  # RE:<anything> is a regex
+_sub_fullpath.add(r"^RE:.*", _sub_re_scoped)  # RE:<anything> is a regex
 _sub_fullpath.add(r"\[\^?\]?(?:[^\]\[]|\[:[^\]]+:\])+\]", _sub_group)  # char group
 _sub_fullpath.add(r"(?:(?<=/)|^)(?:\.?/)+", "")  # canonicalize path
 _sub_fullpath.add(r"\\.", r"\&")  # keep anything backslashed
